@@ -105,6 +105,7 @@ func (dist *LaplaceDistribution) LogCdf(r Scalar, x Vector) error {
     r.Neg(r)
     r.Add(r, dist.c1)
   }
+  r.Log(r)
   return nil
 }
 
